@@ -31,6 +31,9 @@ RULE += (
 RULE += (
     ' Round 9: OneOf / AnyOf(ancestor, child) must give the verdicts of the same composition over the ancestor and the flat class.'
 )
+RULE += (
+    ' Round 10: a third of the classes of a chain get their description as a DOCSTRING (sometimes next to the keyword, which wins); the flat class carries the effective description as keyword.'
+)
 ASSUMPTIONS = [
     "reconfiguration of the child is reassignment-style only; mutating a container inherited by reference in place is not claimed by the statement",
     "effective JSON names of the merged properties are unique (ambiguous declarations are not generated)",
@@ -55,6 +58,12 @@ def cases(draw):
         if node.get("kind") != "Object":
             break  # class names exhausted: the generator fell back to an untyped element
         everything.update(R.index(copy.deepcopy(node)))
+        if draw(st.integers(0, 2)) == 0:
+            # the description given as the class's docstring (sometimes NEXT TO the keyword, which then wins)
+            if "description" in node.get("kw", {}) and draw(st.booleans()):
+                node["doc"] = node["kw"].pop("description")
+            else:
+                node["doc"] = draw(st.sampled_from(["Child doc", "doc of level %d" % level, "two\nlines", ""]))
         if chain:
             node["base"] = {"ref": chain[-1]["id"]}
             # class Child(Mixin, Parent) / (Parent, Mixin): a plain Python mix-in next to the model parent
